@@ -924,7 +924,7 @@ func runC13(r *hx.Result, cfg hx.Config) {
 		"Hlb (trusted, sampled exactly, no tolerance): the key of a node rectangle (clamped to the valid range, scaled by 1-1e-7) does not exceed the distance of any object whose rectangle it contains (geodesic point-to-rectangle bound, float64 trigonometry)",
 		"the R-tree keeps every object under nodes whose rectangles contain the object's rectangle (tidwall/rtree, not verified); the harness checks Hlb on the node rectangles the real tree evaluates",
 		"client-side distances are computed with the server's own distance function through verifapi (collection.geodeticDistAlgo); point objects are cross-checked against geo.DistanceTo",
-		"the theorems hold for every queue discipline satisfying queue_ok (proved for the list queue; for the transcribed binary heap it is sampled: knn-heap-model-not-min-queue); the real R-tree shape is not observable, so order inside a group of equal distances is not compared",
+		"the theorems hold for every queue discipline satisfying queue_ok, proved for the list queue and for the transcribed binary heap (Proofs/KnnHeap.v); that the Go heap is that transcription is sampled (knn-heap-model-not-min-queue); the real R-tree shape is not observable, so order inside a group of equal distances is not compared",
 	}
 	rng := rand.New(rand.NewSource(cfg.Seed))
 	drv, err := model.Start("knn")
